@@ -38,7 +38,9 @@ pub fn check(c: &Case) -> Outcome {
     let mut genuine = 0usize;
     let mut total = 0usize;
     let mut worst_g: f64 = 0.0;
-    for (k, e) in evs.iter().enumerate() {
+    for (k, e0) in evs.iter().enumerate() {
+        // oracle on the function without its exact power-of-two factor (same zero set, same signs)
+        let e = &EvSpec { g: e0.g.unscaled().clone(), dir: e0.dir, terminal: e0.terminal };
         let (te, ye) = (&sol.t_events[k], &sol.y_events[k]);
         if te.len() != ye.len() {
             return Outcome::viol(format!("{}: function {}: {} event times but {} event states", name, k, te.len(), ye.len()));
@@ -93,7 +95,7 @@ pub fn check(c: &Case) -> Outcome {
                 }
             }
             let gs = g_scale(&e.g, *t, y);
-            let bound = 2e-12 + 2.0 * lip * 4.0 * (2e-12 + 4.0 * f64::EPSILON * t.abs()) + 16.0 * f64::EPSILON * gs;
+            let bound = 2.0 * lip * 4.0 * (2e-12 + 4.0 * f64::EPSILON * t.abs()) + 16.0 * f64::EPSILON * gs;
             if gval.abs() > bound {
                 return Outcome::viol(format!("{}: |g| = {:e} at the reported event t={:e} of function {} ({:?}) exceeds root-finder accuracy {:e} (Lipschitz {:e})", name, gval.abs(), t, k, e.g, bound, lip));
             }
